@@ -1,5 +1,5 @@
 (* the extracted monitors evaluated on traces: (name, predicate) *)
 open R_model
 let all : (string * (ev list -> bool)) list =
-  [ "C01", c01_ok; "C02", c02_ok; "C03", (fun t -> c03_ok t && c03_dropped_ok t); "C04", c04_ok; "C05", (fun t -> c05_ok t && c05_calls_ok t);
+  [ "C01", c01_ok; "C02", c02_ok; "C03", (fun t -> c03_ok t && c03_dropped_ok t && c03_none_ok t); "C04", c04_ok; "C05", (fun t -> c05_ok t && c05_calls_ok t);
     "C06", c06_ok; "C15", c15_ok; "C16", c16_ok; "C20", c20_ok ]
